@@ -255,6 +255,27 @@ Section Call.
     let q := mkreq f args o oneway id servant timeout in
     let '(r, s) := run Fc (do_invoke Fs i q) [] in
     (proxy_finish f args o r, s).
+
+  (* ----- many calls multiplexed over one connection ----- *)
+  Definition enc_req (q : reqpkt) : bytes := frame (encode e sid_req (req_val q)).
+  Definition dec_req (pk : bytes) : option reqpkt :=
+    match decode e sid_req (skipn 4 pk) with DOk v _ => val_req v | _ => None end.
+  Definition enc_rsp (p : rsppkt) : bytes := frame (encode e sid_rsp (rsp_val p)).
+  Definition dec_rsp (pk : bytes) : option rsppkt :=
+    match decode e sid_rsp (skipn 4 pk) with DOk v _ => val_rsp v | _ => None end.
+  Definition olist {A} (o : option A) : list A := match o with Some a => [a] | None => [] end.
+
+  (* server end: whatever the receive loop delivers from the byte stream is handled on its own (one goroutine per
+     packet); the replies are written in some order *)
+  Definition server_conn (Fs : SF) (i : iface) (chunks : list bytes) : list rsppkt :=
+    flat_map (fun pk => match dec_req pk with
+                        | Some q => olist (fst (server_handle Fs i q []))
+                        | None => []
+                        end) (fst (recv_loop max_pkt [] chunks)).
+  (* client end: each reply delivered by the receive loop goes to the pending call with its request id; a caller
+     takes the first such reply *)
+  Definition client_conn (chunks : list bytes) (id : Z) : option rsppkt :=
+    find (fun p => (p_id p =? id)%Z) (flat_map (fun pk => olist (dec_rsp pk)) (fst (recv_loop max_pkt [] chunks))).
 End Call.
 
 (* ---------- correspondence ---------- *)
